@@ -131,7 +131,7 @@ def histories(ctx):
         fam = TR.READ_FAMILIES[h % len(TR.READ_FAMILIES)]
         k = rng.randint(4, 9)
         fixed = [(rng.randrange(k), rng.randrange(k)) for _ in range(6)]
-        for nodes, par, ch, case in TR.evolving_universe(ctx, rng, fam, k, rng.randint(4, 20)):
+        for nodes, par, ch, case in TR.evolving_universe(ctx, rng, fam, k, rng.randint(4, 20), fault_rate=(0.3 if h % 2 else 0.0)):
             ctx.count("C15.after_mutation")
             pairs = fixed + [(rng.randrange(k), rng.randrange(k)) for _ in range(4)]
             if not check_universe(ctx, nodes, par, dict(case, pairs=[list(x) for x in pairs]), pairs, key=("hist", h, len(case["history"]))):
